@@ -15,6 +15,8 @@ claimed={
  "C15":(E2,"Generated signatures (arity, naming modes incl. unnamed / blank / f) x arguments through an instrumented f: one call, positions by identity, results unchanged, Uncurry(Curry(f)) = f, Tuple. Exploration only.","trusts reflect.MakeFunc stubs","property-based testing (rapid): instrumented-stub call-log oracle over generated signatures"),
  "C16":(E2,"Generated chains / error forms x failing position x result types: call log, error identity, zero values, pass-through. Exploration only.","trusts reflect.MakeFunc stubs","property-based testing (rapid): fault-position enumeration by generator + call-log / reference composition oracle"),
  "C18":(E2,"Generated signatures x call sequences (identical, Equal-not-identical, hash-colliding repeats) against a per-class result table and call counter. Exploration only.","f deterministic per canonical class by construction","property-based testing (rapid): model-based call sequences (memo table model)"),
+ "C06":(E2,"Generated exported types x hostile values; deriveGoString texts assembled into a second program that must compile and evaluate to values with the same canonical structural encoding. Exploration only.","trusts cmd/compile and the vref encoder","property-based testing (rapid): round-trip through the Go compiler (two-stage)"),
+ "C09":(E1,"Exhaustive sweep of a fault matrix (22 typed plugin forms x 5 unsupported constituents x 8 positions, 74 misuses, 17 broken user files) plus random faulty packages; judged on termination, exit status, absence of a panic trace, and well-typedness of anything produced with exit 0.","hang verdict uses a wall-clock bound (60 s, re-run 150 s; a run takes ~1 s); message wording is not judged","fault injection by generator (rapid) + exhaustive fault-matrix enumeration, clean-termination oracle"),
 }
 checks=[]
 for pid,(eng,text,note,tech) in claimed.items():
